@@ -122,6 +122,13 @@ def pCalloutPlugin : P CalloutPlugin := do
       pure (.table t)
   | _ => failure
 
+/-- one registry entry: reasonCode? type? message argSources? (num desc? prop?)* -/
+def pRegEntry : P RegEntry := do
+  let reasonCode ← pOpt pText; let type ← pOpt pText; let message ← pText
+  let argSources ← pOpt (pList pText)
+  let words ← pList (do let num ← pText; let desc ← pOpt pText; let prop ← pOpt pText; pure ({ num, desc, prop } : RegWord))
+  pure { reasonCode, type, message, argSources, words }
+
 def lookupFn {β} (l : List (Text × β)) (dflt : β) : Text → β := fun k =>
   match l.find? (fun p => p.1 == k) with
   | some (_, v) => v
@@ -170,15 +177,18 @@ def handleSt (st : DrvState) (op : String) : P (DrvState × String) :=
       let t ← pList pField; pEnd
       pure ({ st with flds := st.flds.push t }, s!"ok {st.flds.size}")
   | "setenv" => do
-      -- allowPlugins, component-id files, ud / src / callout plugin behaviours (everything else: absent)
+      -- allowPlugins, component-id files, ud / src / callout plugin behaviours (everything else: absent), message registry
       let allow ← pBool
       let compIds ← pList (do let c ← pText; let m ← pList (do let k ← pText; let v ← pText; pure (k, v)); pure (c, m))
       let uds ← pList (do let n ← pText; let b ← pUdPlugin; pure (n, b))
       let srcs ← pList (do let n ← pText; let b ← pSrcPlugin; pure (n, b))
       let cos ← pList (do let n ← pText; let b ← pCalloutPlugin; pure (n, b))
+      -- optional trailing message registry (a line that ends here means: empty registry)
+      let reg ← (pList pRegEntry <|> pure [])
       pEnd
       let env : Env := { T := liveTables compIds, ud := lookupFn uds .absent,
-                         src := { callout := lookupFn cos .absent, src := lookupFn srcs .absent }, allowPlugins := allow }
+                         src := { callout := lookupFn cos .absent, src := lookupFn srcs .absent, registry := reg },
+                         allowPlugins := allow }
       pure ({ st with env := env }, "ok")
   | "defchips" => do
       let cs ← pList pChip; pEnd
